@@ -289,6 +289,11 @@ type cliHandler struct {
 	// that many below the client's counter (it was handed those notifications but did not keep them)
 	readyLag []int
 	accepts  int
+	// slow application: every notification takes delay to handle; readyFromSeen: like cmd/client the
+	// application declares ready with the id after the last notification it has handled
+	delay         time.Duration
+	readyFromSeen bool
+	lastSeen      uint64
 }
 
 func (h *cliHandler) add(e cliEvent) {
@@ -298,11 +303,25 @@ func (h *cliHandler) add(e cliEvent) {
 	h.mu.Unlock()
 }
 
+func (h *cliHandler) seen(id uint64) {
+	h.mu.Lock()
+	d := h.delay
+	h.mu.Unlock()
+	if d > 0 {
+		time.Sleep(d)
+	}
+	h.mu.Lock()
+	h.lastSeen = id
+	h.mu.Unlock()
+}
+
 func (h *cliHandler) HandleTx(ctx context.Context, tx *Tx) {
 	h.add(cliEvent{kind: "tx", id: tx.ID, txid: *tx.Tx.TxHash()})
+	h.seen(tx.ID)
 }
 func (h *cliHandler) HandleTxUpdate(ctx context.Context, u *TxUpdate) {
 	h.add(cliEvent{kind: "update", id: u.ID, txid: u.TxID})
+	h.seen(u.ID)
 }
 func (h *cliHandler) HandleHeaders(ctx context.Context, hs *Headers) {
 	h.add(cliEvent{kind: "headers"})
@@ -314,6 +333,9 @@ func (h *cliHandler) HandleMessage(ctx context.Context, p MessagePayload) {
 		if h.autoReady && h.client != nil {
 			id := h.client.NextMessageID()
 			h.mu.Lock()
+			if h.readyFromSeen && h.accepts > 0 {
+				id = h.lastSeen + 1
+			}
 			n := h.accepts
 			h.accepts++
 			if n < len(h.readyLag) && uint64(h.readyLag[n]) < id {
